@@ -125,7 +125,10 @@ def getStuffInner (member : Option Member) (action : Option TS) (obj : TS) (fiel
       if ctx.isVariant then .ok (quoteAction action (some (fieldPath (fIdent n))) ctx)
       else .ok (quoteAction action (some (fieldPath ident)) ctx)
     | .named _ => .ok (quoteAction action (some (fieldPath ident)) ctx)
-  | some ident, none => .ok (obj ++ fieldPath ident)
+  | some ident, none =>
+    match ident with
+    | .unnamed n => if ctx.isVariant then .ok (obj ++ fieldPath (fIdent n)) else .ok (obj ++ fieldPath ident)
+    | .named _ => .ok (obj ++ fieldPath ident)
   | none, some action => .ok (quoteAction action (some (fieldPath or)) ctx)
   | none, none => panicAt "expand.rs:ApplicableAttr::get_stuff:unreachable(12)"
 
